@@ -34,8 +34,13 @@ def run(tier, rng, C):
         nl = rng.randint(1, 3)
         first = [(S('target'), M(('b', MC.KINDS[rng.choice(kinds)]()), ('o', I(0))))]
         layers = []
-        for j in range(nl):
-            es = [(S('tmpl'), M((rng.choice(['~b', '~b', 'b']), MC.KINDS[rng.choice(kinds)]())))]
+        lead = rng.random() < 0.4
+        for j in range(nl + (1 if lead else 0)):
+            if lead and j == 0:
+                # the template starts out as an empty mapping (or with other members only)
+                es = [(S('tmpl'), rng.choice([('m', []), M(('o', I(1)))]))]
+            else:
+                es = [(S('tmpl'), M((rng.choice(['~b', '~b', 'b']), MC.KINDS[rng.choice(kinds)]())))]
             layers.append(('m', (first if j == 0 else []) + es))
         layers.append(M(('target', S('${tmpl}'))))
         stacks.append(layers)
